@@ -65,7 +65,7 @@ pub fn scan<const N: usize, const KK: usize>() {
     kani::cover!(n == N - k + 1);
     kani::cover!(n == 1 || N - k + 1 > k - P + 1);
     kani::cover!(table[0] == table[5] && table[1] == table[5]);
-    kani::cover!(i == n - 1 && mp > start);
+    kani::cover!(k == P || (i == n - 1 && mp > start));
     core::mem::forget(ivs);
 }
 
